@@ -168,6 +168,10 @@ def self_validation(prop):
 def run_property(prop, tier="quick", replay=None):
     t0 = time.time()
     seed = int(os.environ.get("VERIF_SEED", "0") or 0)
+    if tier == "thorough":
+        # deeper exploration: every loop body is seen zero, one and two times (quick: zero and one)
+        from . import paths as _paths
+        _paths.LOOP_BOUND = max(_paths.LOOP_BOUND, 3)
     try:
         world = facts.load_world()
     except facts.AnalysisError as e:
